@@ -49,10 +49,13 @@ def rr_cases(draw):
             "clustering": draw(st.booleans()), "mode": mode, "pool": pool, "d": draw(st.integers(1, 3)),
             "save_every": draw(st.sampled_from([1, 2, 3])), "seed": draw(st.integers(0, 2**31 - 2)),
             "random_state": draw(st.one_of(st.none(), st.integers(0, 10**6))), "resume_mult": draw(st.sampled_from([1, 1, 2, 3])),
-            "resume_particles": draw(st.sampled_from([16, 16, 24, 40]))}
+            "resume_particles": draw(st.sampled_from([16, 16, 24, 40])),
+            # batches of one or two particles are legal (arrays of size one must survive the round trip as arrays)
+            "n_particles": draw(st.sampled_from([16, 16, 16, 1, 2]))}
 
 
-def build(case, outdir, n_particles=16):
+def build(case, outdir, n_particles=None):
+    n_particles = int(n_particles or case.get("n_particles", 16))
     t = Target.from_spec(simple_target_spec(np.random.default_rng(case["seed"]), case["d"], case["mode"]))
     s = make_sampler(t, dict(sample=case["kernel"], resample=case["resample"], clustering=case["clustering"], n_particles=n_particles,
                              pool=case["pool"], random_state=case["random_state"]), output_dir=outdir)
@@ -66,8 +69,13 @@ def load_file(path):
         return dill.load(f)
 
 
+def n_total_for(case):
+    N = int(case.get("n_particles", 16))
+    return 64 if N >= 16 else 6 * N  # tiny batches: keep the number of iterations (and checkpoints) comparable
+
+
 def exec_rr(case):
-    n_total = 64
+    n_total = n_total_for(case)
     with scratch_dir() as od:
         np.random.seed(case["seed"])
         s, t = build(case, od)
@@ -102,7 +110,7 @@ def exec_rr(case):
             # (2) resume on another fresh sampler - also from the final checkpoint (a resume that may have nothing left to do), possibly
             # with another number of particles per iteration (the weights are defined for unequal batch sizes)
             is_final = name.endswith("_final.state")
-            s3, t3 = build(case, od, n_particles=int(case.get("resume_particles", 16)) if not is_final else 16)
+            s3, t3 = build(case, od, n_particles=int(case.get("resume_particles", 16)) if not is_final else None)
             np.random.seed(case["seed"] + 1)
             n_total_res = n_total * (int(case.get("resume_mult", 1)) if not is_final else 1)  # the resumed run may ask for more samples
             with quiet():
@@ -168,7 +176,7 @@ def second_life(case, s, core, snaps, files, od):
         bsnaps = {}
         wrap_method(bcore, "save_sampler_state", before=lambda path, *a, **k: bsnaps.__setitem__(str(path), history_snapshot(bcore.state)))
         with quiet():
-            lib_call(b.run, n_total=64, progress=False, save_every=case["save_every"], what="Sampler.run(save_every=...) [sibling]")
+            lib_call(b.run, n_total=n_total_for(case), progress=False, save_every=case["save_every"], what="Sampler.run(save_every=...) [sibling]")
         bfiles = sorted(f for f in bsnaps if os.path.exists(f))
         if not bfiles:
             raise Violation("sibling run wrote no checkpoint", sig={"kind": "no-checkpoint"})
@@ -205,7 +213,7 @@ def second_life(case, s, core, snaps, files, od):
     snaps.clear()
     np.random.seed(case["seed"] + 13)
     with quiet():
-        lib_call(s.run, n_total=64, progress=False, resume_state_path=f0, save_every=case["save_every"],
+        lib_call(s.run, n_total=n_total_for(case), progress=False, resume_state_path=f0, save_every=case["save_every"],
                  what="Sampler.run(resume_state_path=own earlier checkpoint, save_every=...) [same object]")
     for f in sorted(snaps):
         if not os.path.exists(f):
